@@ -130,6 +130,12 @@ package gera
 //@   modifies nothing
 //@   ensures fresh(r) && r.parent == nil && fresh(r.theMap) && forall k K :: !(k in r.theMap)
 
+//@ func (w *WrapMap[K, V]) WithUnmarshalYAML(unmarshalYAML func(w Map[K, V], unmarshal func(interface{}) error) error) (r *WrapMap[K, V])
+//@   property C14
+//@   requires w != nil
+//@   modifies w.unmarshalYAML
+//@   ensures r == w
+
 //@ func MakeMapWithMap(fromMap map[K]V) (r *WrapMap[K, V])
 //@   property C14
 //@   modifies nothing
